@@ -20,6 +20,7 @@ EXPLANATION = (
     "|E|*|V| and caps are only lowered to 1 for non-SCC edges (a smaller cap makes k = width infeasible); (R7) the demands fed to the width computation are "
     "1 per non-ignored edge (DAG), the un-capped multiplicity per condensation edge lowered by 1 per ignored edge, and 1 per non-trivial SCC "
     "(R8) the safety optimisations both cover searches run under conform to the frozen table (rows serving C05, including how the protection sets are built).  "
+    " (R3, extended) the k-range reaches |E| + number of constraints; (R2, extended) max(1, lower bound) is accepted as start; (R9) the lower-bound graph of both cover searches is built with the additional starts / ends of the model (C10.R8), and the antichain network tests the weight function against None (an empty weight function means all weights 0, C17.R6). "
     "(0 iff all member edges are ignored).  NOT decided: cover "
     "optimality, width == minimum (min-max identity), correctness of the min-cost-flow reduction."
 )
